@@ -59,7 +59,13 @@ def generate(rng, tier):
                       scen.cmd("create", "@R", *fm, "-sf", "@R/" + pre + rng.choice([a, b])), {"op": "advance", "us": 1_000_000},
                       scen.cmd("create", "@R", *fm)]
         sc["must_probe"] = [pre + a, pre + b]
-    if rng.random() < 0.25:
+    if rng.random() < 0.06:
+        # two create runs on the same folder overlapped (two operators, a script started twice): both loaded the same N
+        # generations, both wrote a generation N+1, in different seconds; the chain is the one of the run that
+        # committed last
+        sc["overlap"] = {"gap_us": rng.choice([1_000_000, 2_500_000, 61_000_000]), "late_chain": rng.random() < 0.7,
+                         "fmts": [rng.choice(["md5", "sha1"]), rng.choice(["xxh64", "c4"])]}
+    elif rng.random() < 0.25:
         sc["world"]["process_model"] = "session"
         # ask for files early as well, so that a later nested history changes the right answer
         files = gen.tree_files(sc["world"]["tree"])
@@ -94,6 +100,27 @@ def execute(sc, ctx):
     if any(res is not None and res.aborted for _, res, _ in results):
         ctx.probe("setup_aborted_na")
         return
+    ov = sc.get("overlap")
+    if ov and os.path.isfile(os.path.join(w.root, "ascmhl", "ascmhl_chain.xml")):
+        wc = core.clone_world(w, ctx.subdir())
+        wc.advance(ov["gap_us"])
+        r_late = wc.run_cmd(["create", wc.root, "-h", ov["fmts"][1]])
+        r_early = w.run_cmd(["create", w.root, "-h", ov["fmts"][0]])
+        if r_late.outcome[0] == "exit" and r_early.outcome[0] == "exit" and r_late.outcome[1] in (0, 10, 11) and r_early.outcome[1] in (0, 10, 11):
+            for d, subs, files in os.walk(wc.root):
+                if os.path.basename(d) != "ascmhl":
+                    continue
+                dst = os.path.join(w.root, os.path.relpath(d, wc.root))
+                for f in sorted(files):
+                    # (the run that commits last overwrites a manifest of the same name -- same second -- like its chain)
+                    if (f.endswith(".mhl") and (ov["late_chain"] or not os.path.exists(os.path.join(dst, f)))) or (
+                            f == "ascmhl_chain.xml" and ov["late_chain"]):
+                        with core.R_open(os.path.join(d, f), "rb") as fh:
+                            data = fh.read()
+                        with core.R_open(os.path.join(dst, f), "wb") as fh:
+                            fh.write(data)
+            ctx.fault("overlapping_create_runs")
+        core.shutil_rmtree(wc.sandbox)
     roots = observe.find_histories(w.root)
     views = {hr: observe.HistoryView(hr) for hr in roots}
     if any(v.error for v in views.values()):
@@ -145,7 +172,10 @@ def execute(sc, ctx):
                             f"{sorted(os.path.relpath(k, w.root) for k in want)}")
                 return
             for hr in want:
-                if got[hr] != want[hr]:
+                # ascending by generation number; the order among generations that carry the same number (overlapping
+                # runs) is not specified
+                nums_ok = [g[0] for g in got[hr]] == [g[0] for g in want[hr]]
+                if not nums_ok or sorted(got[hr]) != sorted(want[hr]):
                     ctx.violate({"kind": "generations-differ", "cmd": "info",
                                  "cause": "numbers" if [g[0] for g in got[hr]] != [g[0] for g in want[hr]] else "dates"},
                                 desc + f": {os.path.relpath(hr, w.root)}: printed {got[hr]} manifests say {want[hr]}")
